@@ -126,6 +126,11 @@ REPORT = [b"vary"]      # (the presence of last-modified is C04's subject: not c
 # ---- menus -------------------------------------------------------------------------------
 NAMES = [b"x-a", b"x-b", b"x-c", b"accept-language", b"x-a", b"x-b"]
 ODD_NAMES = [(b"X-Up", b"x-up"), (b"x bad", None), (b"x:y", None), (b"X-A", b"x-a")]   # (rule name, request header name or None)
+# rule headers whose names are equal to / pieces of / extensions of the two names every vary header starts with
+# ("accept-encoding, range"): each of them is a rule header like any other and has to be listed after the fixed part
+OVERLAP_NAMES = [b"accept", b"range", b"accept-encoding", b"encoding", b"x-accept", b"ran", b"accept-enc", b"Accept", b"e", b"Range",
+                 b"accept-encoding-x", b"ge"]
+RANGE_VALUES = [b"bytes=0-1", b"bytes=1-3", b"bytes=0-", b"en", b"zz", b"", b"bytes=2-1000", b"BYTES=0-1"]     # never start > end
 DEFAULTS = [b"dflt", b"lo", b"hi", b"0", b"", b"en", b"k", b"none", b"zz"]
 VALUES = {
     0: [b"en", b"EN", b"sv", b"Sv", b"de", b"fr", b"a", b"zz", b"", b"en-GB", b"b\tc", b"dflt"],
@@ -148,13 +153,17 @@ class Page:
         self.echo = rules if echo is None else echo     # what the handler renders (normally the rules' tuple)
 
 
-def gen_rules(rng, n=None):
+def gen_rules(rng, n=None, p_overlap=0.08):
     n = rng.choice([0, 1, 1, 2, 2, 2, 3, 3]) if n is None else n
     rules = []   # (rule name, xform, default, request header name or None)
     used = set()
     for _ in range(n):
-        if rng.random() < 0.15:
+        x = rng.random()
+        if x < 0.15:
             name, rq = rng.choice(ODD_NAMES)
+        elif x < 0.15 + p_overlap:
+            name = rng.choice(OVERLAP_NAMES)
+            rq = name.lower()
         else:
             name = rng.choice(NAMES)
             rq = name
@@ -167,10 +176,12 @@ def gen_rules(rng, n=None):
     return rules
 
 
-def rand_value(rng, xf):
+def rand_value(rng, xf, name=None):
     r = rng.random()
     if r < 0.12:
         return rng.choice(NONTEXT)
+    if name == b"range" and r < 0.7:
+        return rng.choice(RANGE_VALUES)       # (a range whose start is after its end fails sanitize: not a value of a rule header here)
     return rng.choice(VALUES[xf])
 
 
@@ -181,16 +192,16 @@ def rand_headers(rng, rules, p_absent=0.25, p_repeat=0.12, encodings=True):
             continue
         if rng.random() < p_absent:
             continue
-        v = rand_value(rng, xf)
+        v = rand_value(rng, xf, rq)
         hdrs.append((rq, v))
         if rng.random() < p_repeat:       # repeated header: get() returns the first value; the second is of another class
-            w = rand_value(rng, xf)
+            w = rand_value(rng, xf, rq)
             for _ in range(4):
                 if _xf(xf, w) != _xf(xf, v):
                     break
-                w = rand_value(rng, xf)
+                w = rand_value(rng, xf, rq)
             hdrs.append((rq, w))
-    if encodings and rng.random() < 0.15:
+    if encodings and rng.random() < 0.15 and not any(n == b"accept-encoding" for (n, _) in hdrs):
         hdrs.append((b"accept-encoding", rng.choice([b"gzip", b"br", b"identity", b"zstd, gzip"])))
     if rng.random() < 0.1:
         hdrs.append((b"x-unrelated", b"1"))
@@ -460,9 +471,11 @@ def wire(rng):
         if x < 0.06:
             pass        # (a range of an error page: the run compares error pages by class, not by text)
         elif y < 0.4:
-            hdrs.append((b"range", rng.choice(RANGES)))
+            if not any(n == b"range" for (n, _) in hdrs):
+                hdrs.append((b"range", rng.choice(RANGES)))
         elif y < 0.5:
-            hdrs.append((b"accept-encoding", rng.choice([b"gzip", b"br", b"identity"])))
+            if not any(n == b"accept-encoding" for (n, _) in hdrs):
+                hdrs.append((b"accept-encoding", rng.choice([b"gzip", b"br", b"identity"])))
         if rng.random() < 0.12:
             hdrs.append((b"if-modified-since", b"@T+100" if rng.random() < 0.7 else b"@T-100"))
         ops.append(pipe.req(target, method=rng.choice([b"GET", b"GET", b"GET", b"HEAD", b"POST"]), headers=hdrs,
@@ -497,7 +510,7 @@ def picky(rng, wire_=False):
         hdrs = list(rng.choice(pool))
         if rng.random() < 0.3:
             hdrs.append((b"if-modified-since", b"@T+100" if rng.random() < 0.8 else b"@T-100"))
-        if wire_ and rng.random() < 0.2:
+        if wire_ and rng.random() < 0.2 and not any(n == b"range" for (n, _) in hdrs):
             hdrs.append((b"range", rng.choice(RANGES)))
         ops.append(pipe.req(b"/v", method=rng.choice([b"GET", b"GET", b"GET", b"HEAD"]), addr=1 if wire_ else rng.randrange(1, 4), headers=hdrs))
         x = rng.random()
@@ -508,6 +521,37 @@ def picky(rng, wire_=False):
     if not wire_:
         ops += dumps(pages)
     return mk(cfg, ops, "picky-wire" if wire_ else "picky", spec=False, comp="vary.wire" if wire_ else "vary.run")
+
+
+def overlap(rng, wire_=False):
+    """rule headers named like (pieces of) the fixed part of the vary header - accept, range, accept-encoding, encoding, ran,
+    e ... -: each is advertised after "accept-encoding, range" like any other rule header (a rule on `range` or
+    `accept-encoding` itself is listed a second time: the code does not merge, and the property asks for the fixed part
+    plus each rule header), and selects variants like any other"""
+    first = rng.choice(OVERLAP_NAMES)
+    xf = rng.choice([0, 0, 1, 2])
+    rules = [(first, xf, rng.choice(DEFAULTS), first.lower())]
+    for r in gen_rules(rng, rng.choice([0, 1, 2]), p_overlap=0.4):
+        if r[0].lower() != first.lower():
+            rules.append(r)
+    rng.shuffle(rules)
+    pages = [Page(b"/v", rules, prefix=LONG if rng.random() < 0.2 else None)]
+    cfg = config(pages, report=WIRE_REPORT if wire_ else None)
+    reqs = request_set(rng, b"/v", rules, rng.randrange(3, 7), methods=(b"GET", b"GET", b"GET", b"HEAD"), p_query=0.0,
+                       p_repeat=0.0 if wire_ else 0.12, encodings=False)
+    if wire_:
+        ops = []
+        for r in reqs + [rng.choice(reqs) for _ in range(3)]:
+            hdrs = [(h[1][0][1], h[1][1][1]) for h in r[1][4][1]]
+            hdrs = [(n, v) for (n, v) in hdrs if v == v.strip(b" \t")]
+            hdrs = [(n, v) for k, (n, v) in enumerate(hdrs) if n not in [m for (m, _) in hdrs[:k]]]
+            if rng.random() < 0.3 and not any(n == b"range" for (n, _) in hdrs):
+                hdrs.append((b"range", rng.choice(RANGES)))
+            ops.append(pipe.req(b"/v", method=r[1][2][1], headers=hdrs))
+        return mk(cfg, ops, "overlap-wire", spec=False, comp="vary.wire")
+    second = list(reqs)
+    rng.shuffle(second)
+    return mk(cfg, history_ops(reqs, second, pages), "overlap")
 
 
 def malformed(rng):
@@ -632,6 +676,8 @@ def generate(rng, tier):
         cases += [interleaved(rng) for _ in range(30)]
         cases += [picky(rng) for _ in range(40)]
         cases += [picky(rng, True) for _ in range(12)]
+        cases += [overlap(rng) for _ in range(40)]
+        cases += [overlap(rng, True) for _ in range(12)]
     else:
         cases += exhaustive_orders(rng, 2, "orders", 20)
         cases += exhaustive_orders(rng, 3, "orders", 60)
@@ -649,6 +695,8 @@ def generate(rng, tier):
         cases += [interleaved(rng) for _ in range(600)]
         cases += [picky(rng) for _ in range(1000)]
         cases += [picky(rng, True) for _ in range(300)]
+        cases += [overlap(rng) for _ in range(1000)]
+        cases += [overlap(rng, True) for _ in range(300)]
     return cases
 
 
@@ -664,6 +712,8 @@ def directed(rng, mismatches):
     cases += [wire(rng) for _ in range(200)]
     cases += [picky(rng) for _ in range(150)]
     cases += [picky(rng, True) for _ in range(40)]
+    cases += [overlap(rng) for _ in range(100)]
+    cases += [overlap(rng, True) for _ in range(30)]
     return cases
 
 
